@@ -364,6 +364,15 @@ Definition ex_tree (n : nat) : sterm :=
         SStmt arm_equiv_retro n n n n (SAtom arm_word [97]%N)
               (SComp 2 n (fun _ => (n, n)) [SSet false n (fun _ => (n, n)) [SAtom 5 [103; 111]%N] n] n)] n).
 
+(* the remaining sugar: property and instance-property copulas, intension image, a placeholder
+   written with a name after its prefix (first of two placeholders), a query variable, a product *)
+Definition ex_tree2 (n : nat) : sterm :=
+  SStmt arm_instance_property n n n n
+    (SStmt arm_property n n n n (SAtom arm_word [99; 45; 100]%N) (SAtom 3 [113]%N))
+    (SComp arm_image_int n (fun i => (i, n))
+       [SAtom arm_placeholder [97; 98; 99]%N; SComp 9 n (fun _ => (n, n)) [SAtom arm_word [117]%N; SAtom 2 [49]%N] n;
+        SAtom arm_placeholder []] n).
+
 Definition res_val {F A} (r : pres F A) : option A := match r with POk v _ => Some v | _ => None end.
 Definition res_rest {F A} (r : pres F A) : option str := match r with POk _ st => Some (s_rest st) | _ => None end.
 
@@ -390,6 +399,19 @@ Example ex_meaning :
             (TImg ImageExtension 1
                [TName Word [116; 105; 109]%N; TNum Interval 42;
                 TBox2 EquivalencePredictive (TBox1 Negation (TSet SetIntension [TName Operator [103; 111]%N])) (TName Word [97]%N)])).
+Proof. vm_compute. reflexivity. Qed.
+
+Example ex_hypotheses_satisfiable2 :
+  forallb (fun E => ex_check E (ex_tree2 0) && ex_check E (ex_tree2 2)) shipped_formats = true.
+Proof. vm_compute. reflexivity. Qed.
+
+Example ex_meaning2 :
+  odesugar (ex_tree2 1) =
+    Some (TBox2 Inheritance
+            (TSet SetExtension [TBox2 Inheritance (TName Word [99; 45; 100]%N) (TSet SetIntension [TName VariableQuery [113]%N])])
+            (TSet SetIntension
+               [TImg ImageIntension 0
+                  [TVec Product [TName Word [117]%N; TName VariableDependent [49]%N]; TUnit Placeholder]])).
 Proof. vm_compute. reflexivity. Qed.
 
 (* a name that is NOT unambiguous in Han: it contains the inheritance copula, the scan would cut it *)
